@@ -267,6 +267,22 @@ theorem C11_touch_only_party_any_faults (w : World) (f : Nat) (c : Cmd) (i : Nat
   · rename_i m hm; exact ⟨m, hm, hp⟩
   · cases hp
 
+/-- **A used code opens nothing**: the world's history may contain codes that were activated earlier (`Code.actBy`:
+by whom; the mapping that activation created is one of `w.maps`).  Whoever presents such a code again — the
+activator, the code's owner, a stranger, an unauthenticated connection — gets a refusal: nothing is disclosed (in
+particular not the mapping the first activation created, nor its secret key), nothing changes, nothing is pushed.
+(That a *successful* answer may only show objects of the caller is `C11_parties_only`; `holds` applies it to the
+implementation's answer whatever branch produced it.) -/
+theorem C11_used_code_replay (w : World) (f : Nat) (c : Cmd) (i : Nat) (cd : Code) (hne : w.noExec = false)
+    (hd : dispatch c.ctype c.resp = some .codeActivate) (hk : getRef w.codes c.k = some (i, cd))
+    (hu : cd.activated = true) :
+    exec .repaired w f c = Run.failResp := by
+  unfold exec execDispatch
+  simp only [hne, Bool.false_and, Bool.false_eq_true, if_false, hd, execH, hk, hu, if_true]
+  split
+  · rfl
+  · split <;> rfl
+
 /-- **The sender a recipient is told is the connection's identity**: every command packet delivered to another
 connection either names no sender or names exactly the client authenticated on the connection the command
 arrived on; a client-to-client notification always names it. -/
@@ -358,6 +374,14 @@ example : holds wTwo 0 (cmdOf 90 0 2002 0) ⟨true, .none, [], [], [⟨2, 35, no
   decide
 example : holds wTwo 0 (cmdOf 90 0 2002 0) ⟨true, .none, [], [], [⟨2, 35, none⟩], []⟩ ⟨true, .none, [], [], [⟨1, 35, none⟩], []⟩ = false := by
   decide
+/-- history with a used code: 1002 generated code 0, 1001 activated it (mapping 0 = 1001 → 1002).  The stranger 1003 replays
+the code: refused; and `holds` rejects the observation in which the stranger was shown mapping 0 -/
+def wUsed : World :=
+  { conns := [⟨.auth, 1001, 0⟩, ⟨.auth, 1002, 0⟩, ⟨.auth, 1003, 0⟩], maps := [⟨1001, 1002, false, true⟩],
+    codes := [⟨1002, true, some 1001⟩], doms := [] }
+example : exec .repaired wUsed 2 (cmdOf 72 0 0 0) = Run.failResp := by decide
+example : holds wUsed 2 (cmdOf 72 0 0 0) (Run.okResp [.map 0] [] []) (Run.okResp [.map 0] [] []) = false := by decide
+example : holds wUsed 0 (cmdOf 72 0 0 0) (Run.okResp [.map 0] [] []) (Run.okResp [.map 0] [] []) = true := by decide
 /-- no executor installed: ConfigGet on the unauthenticated connection 3 pushes an (empty) configuration to
 connection 3 itself and discloses nothing; the listen party gets its own mappings -/
 example : exec .repaired { wStd with noExec := true } 3 (cmdOf 50 0 0 0) = ⟨true, .none, [], [], [⟨3, 51, none⟩], []⟩ := by decide
